@@ -79,6 +79,17 @@ pub fn prefixes(prop: &str) -> Vec<Vec<Step>> {
                 Step::Collect { arena: 0, api: Api::FinishMarking },
                 Step::Mutate { arena: 0, via_root: false, ops: vec![MutOp::PokeLeaf { target: 0 }, MutOp::BarrierOnly { variant: 1, parent: 0, child: 0 }, MutOp::BarrierOnly { variant: 4, parent: 0, child: 0 }], panic_at: None },
             ]);
+            // a resurrected object of a type that claims NEEDS_TRACE = false is queued all the same; its
+            // trace panics once, then marking is finished and a barrier hits a traced object
+            v.push(vec![
+                new_arena(0, vec![alloc(Kind::NT, 0), MutOp::RootWeak { slot: 0, child: Some(255) }, alloc(Kind::D, 0), MutOp::RootSet { slot: 0, child: Some(255) }]),
+                Step::Finalize { arena: 0, forced: true, ops: vec![MutOp::Resurrect { holder: 255, wslot: 0, strong: false }], panic_at: None, then: Then::Nothing },
+                Step::ArmTracePanic { k: 0 },
+                Step::Collect { arena: 0, api: Api::FinishMarking },
+                Step::Collect { arena: 0, api: Api::FinishMarking },
+                Step::Mutate { arena: 0, via_root: false, ops: vec![alloc(Kind::D, 0), MutOp::Link { parent: 0, slot: 0, child: Some(255), variant: 0 }], panic_at: None },
+                Step::Collect { arena: 0, api: Api::MarkDebt },
+            ]);
             // barriers on a traced leaf with a fresh (unmarked) child, nothing else traced in this cycle
             for variant in [0u8, 4] {
                 v.push(vec![
